@@ -45,9 +45,6 @@ Definition rep_set_unique (r : reported) (b : bool) : reported :=
 Definition predicted (o : mobs) : list api :=
   map api_of (fst (auto_migrate_table reported (fun _ => dummy_rep) rep_set_unique (fun r => r) (mo_model o) (mo_table o))).
 
-Definition deps_of (deps : list (string * list string)) (n : string) : list string :=
-  match lookup n deps with Some l => l | None => [] end.
-
 Definition model_agrees (c : case) : bool :=
   match c with
   | CDecide f r a u e =>
